@@ -22,6 +22,8 @@ FLAVOURS = {
     'gcc-asan':   ('g++',     '-std=c++11 -O1 ' + SAN, 'single'),
     'clang-asan-dev': ('clang++', '-std=c++11 -O1 ' + SAN + ' -fno-sanitize=object-size', 'dev'),
     'gcc-O2':     ('g++',     '-std=c++11 -O2', 'single'),
+    'clang-tsan': ('clang++', '-std=c++11 -O1 -g -fsanitize=thread', 'single'),
+    'gcc-tsan':   ('g++',     '-std=c++11 -O1 -g -fsanitize=thread', 'single'),
     'u-clang-asan': ('clang++', '-std=c++17 -O0 ' + SAN + ' -fno-sanitize=object-size', 'single'),
     'u-gcc':      ('g++',     '-std=c++17 -O0', 'single'),
     'u-gcc-O2':   ('g++',     '-std=c++17 -O2', 'single'),
@@ -31,7 +33,7 @@ FLAVOURS = {
     'id-gcc17':   ('g++',     '-std=c++17 -O0', 'single'),
     'id-clang-dev': ('clang++', '-std=c++11 -O0', 'dev'),
 }
-SAN_ENV = {'ASAN_OPTIONS': 'halt_on_error=1:detect_leaks=0:exitcode=77:abort_on_error=0', 'UBSAN_OPTIONS': 'print_stacktrace=1:halt_on_error=1:exitcode=78'}
+SAN_ENV = {'TSAN_OPTIONS': 'halt_on_error=1:exitcode=66:second_deadlock_stack=1', 'ASAN_OPTIONS': 'halt_on_error=1:detect_leaks=0:exitcode=77:abort_on_error=0', 'UBSAN_OPTIONS': 'print_stacktrace=1:halt_on_error=1:exitcode=78'}
 
 def sha(*parts):
     h = hashlib.sha1()
@@ -135,6 +137,8 @@ def sanitizer_key(stderr):
     m = re.search(r'ERROR: AddressSanitizer: ([a-zA-Z0-9_-]+)', s)
     kind = None
     if m: kind = 'asan:' + m.group(1)
+    elif 'WARNING: ThreadSanitizer: ' in s: kind = 'tsan:' + re.search(r'WARNING: ThreadSanitizer: ([a-z A-Z-]+)', s).group(1).strip().replace(' ', '-')
+    elif re.search(r'==\d+== (Invalid|Conditional jump|Use of uninit|Syscall param)', s): kind = 'memcheck:' + re.search(r'==\d+== (Invalid \w+|Conditional jump|Use of uninit\w*|Syscall param)', s).group(1).replace(' ', '-')
     else:
         m = re.search(r'runtime error: ([^\n]{0,80})', s)
         if m:
